@@ -250,11 +250,12 @@ def bounded_standin(plan, prop, r, repo, tier):
 def native_enumeration(plan, r, repo, tier, prop=None):
     """last resort for a function outside the interpreter's subset: the real function against CPython on every small
     input (replay/differential.py; bounded, labelled so).  Output differences without a fault are reported under
-    C01/C02, differences on runs with an injected failure under C06; other properties get no verdict from it."""
+    C01/C02, differences on runs with an injected failure under C06, class-based async sources left open under C04, left
+    open / not propagated under cancellation under C18; other properties get no verdict from it."""
     impl = r.get("impl") or [None, None]
     name = (impl[1] or "").split(".")[0]
     harness = os.path.join(VERIF, "replay", "differential.py")
-    if not name or prop not in ("C01", "C02", "C06"):
+    if not name or prop not in ("C01", "C02", "C06", "C04", "C18"):
         return None
     try:
         p = subprocess.run(["/venv/bin/python", harness, name, tier], capture_output=True, text=True, timeout=1500,
@@ -265,7 +266,12 @@ def native_enumeration(plan, r, repo, tier, prop=None):
     if not res.get("cases"):
         return {"note": f"no native differential variants for {name}"}
     faulted = lambda v: "source fails at None, callable fails at None" not in v     # noqa: E731
-    mine = [v for v in res["violations"] if (faulted(v) if prop == "C06" else not faulted(v))]
+    if prop == "C04":
+        mine = res.get("leaks", [])
+    elif prop == "C18":
+        mine = res.get("cancellation", [])
+    else:
+        mine = [v for v in res["violations"] if (faulted(v) if prop == "C06" else not faulted(v))]
     out = {"method": "native differential enumeration against CPython (label: bounded)", "cases": res["cases"], "bound": res["bound"]}
     if mine:
         out["violation"] = mine[0]
@@ -326,7 +332,7 @@ def make_replay(plan, prop, r, ob, repo, replay_dir):
                 rec["native_schedule"] = {"scenario_family": sched, "violation": None, "schedules": res.get("schedules"), "bound": res.get("bound")}
         except Exception as e:
             rec["native_schedule_error"] = repr(e)
-    if not rec["confirmed"] and not r.get("synthetic") and prop in ("C01", "C02", "C06"):
+    if not rec["confirmed"] and not r.get("synthetic") and prop in ("C01", "C02", "C06", "C04", "C18"):
         # no scenario of the engine replayed: search a failing input natively (bounded differential enumeration)
         try:
             nat2 = native_enumeration(plan, r, repo, "quick", prop)
